@@ -1369,10 +1369,8 @@ class Client(object):
             TypeError if the access argument is of incorrect type
         """
         key = Blackboard.absolute_name(super().__getattribute__("namespace"), key)
-        super().__getattribute__("remappings")[key] = (
-            key if remap_to is None else remap_to
-        )
-        remapped_key = super().__getattribute__("remappings")[key]
+        # only record the remapping once the registration has been validated (below)
+        remapped_key = key if remap_to is None else remap_to
         if access == common.Access.READ:
             super().__getattribute__("read").add(key)
             Blackboard.metadata.setdefault(remapped_key, KeyMetaData())
@@ -1421,6 +1419,7 @@ class Client(object):
             raise TypeError(
                 "access argument is of incorrect type [{}]".format(type(access))
             )
+        super().__getattribute__("remappings")[key] = remapped_key
         if required:
             super().__getattribute__("required").add(key)
         self._update_namespaces(added_key=key)
